@@ -41,6 +41,10 @@ class Ctx:
         self.assumptions = []
         self.notes = []
 
+    def fresh_replays(self):
+        """replays of earlier runs of this property are stale: start clean (not in --replay mode)"""
+        shutil.rmtree(os.path.join(VERIF, "replays", self.pid), ignore_errors=True)
+
     def cleanup(self):
         shutil.rmtree(self.work, ignore_errors=True)
 
